@@ -162,6 +162,13 @@ def run(ctx):
         for (k, cfg, fs) in [(0, 6 | (1 << 8), '-'), (4, 1 << 8, 'lzma2:dict=64KiB,mode=normal,mf=bt4,nice=%d' % rng.choice([32, 64, 128])), (3, 0, 'lzma2:dict=64KiB,mode=normal,mf=hc4,nice=48'), (2, 6, '-')]:
             for m, s in [(0, 0), (1, 0)] + [(3, rng.randrange(1 << 20)) for _k in range(6 if ctx.quick() else 25)]:
                 elines.append('enc %d %d %d %d %s %s' % (k, cfg, m, s, fs, d.hex())); emeta.append(((k, cfg, fs, id(d)), m, s, d))
+    # > 2 MiB of near-identical short records (compresses far better than 32:1, matches mostly shorter than nice_len): LZMA2
+    # chunks end at the 2 MiB uncompressed limit, where the pending look-ahead of the optimiser must not decide the cut
+    from enc_common import special_inputs
+    recs_ = special_inputs(rng)[0][:(2 << 20) + 700000]
+    for fs in (['lzma2:dict=1MiB,mode=normal,mf=bt4,nice=273', 'lzma2:dict=64KiB,mode=normal,mf=hc4,nice=200'] if ctx.quick() else ['lzma2:dict=1MiB,mode=normal,mf=bt4,nice=273', 'lzma2:dict=64KiB,mode=normal,mf=hc4,nice=200', 'lzma2:dict=1MiB,mode=normal,mf=bt3,nice=128', 'lzma2:preset=6e']):
+        for m, s_ in [(0, 0)] + [(3, rng.randrange(1 << 20)) for _k in range(3 if ctx.quick() else 10)]:
+            elines.append('enc 3 0 %d %d %s %s' % (m, s_, fs, recs_.hex())); emeta.append(((3, 0, fs, id(recs_)), m, s_, recs_))
     # threaded encoder: same block size, different thread counts / timeouts / slicings must give the same bytes
     for d in datas:
         if len(d) < 100: continue
